@@ -110,3 +110,57 @@ func VerifC12Resend() {
 	}
 	vReach("end")
 }
+
+// messages still held back by flow control when the subscriber reconnects are not overtaken by a later
+// publish from the same publisher
+func VerifC12ReconnectHeld() {
+	s, _ := vNewServer(nil)
+	cl, _, _ := vConnectClient(s, "c1", 5, false, 1)
+	sub := packets.Subscription{Filter: "t", Qos: 1}
+	s.Topics.Subscribe("c1", sub)
+	cl.State.Subscriptions.Add("t", sub)
+	n := vParam("MSGS", 3)
+	for i := 0; i < n; i++ {
+		s.publishToSubscribers(packets.Packet{FixedHeader: packets.FixedHeader{Type: packets.Publish, Qos: 1}, TopicName: "t", Payload: []byte{byte(1 + i)}, Origin: "pub"})
+	}
+	vFlush(cl)
+	cl.Stop(nil)
+	R2 := uint16(1 + vChoose(3))
+	cl2, _, present := vConnectClient(s, "c1", 5, false, R2)
+	vAssert("session-present", present)
+	_ = cl2.ResendInflightMessages(true)
+	// a later message from the same publisher
+	s.publishToSubscribers(packets.Packet{FixedHeader: packets.FixedHeader{Type: packets.Publish, Qos: 1}, TopicName: "t", Payload: []byte{byte(1 + n)}, Origin: "pub"})
+	vFlush(cl2)
+	// the client acknowledges what it receives, which lets anything still held back drain
+	acked := map[uint16]bool{}
+	for round := 0; round < n+2; round++ {
+		wr := vParseWire(vConnWritten(cl2.Net.Conn), 5)
+		progressed := false
+		for _, p := range wr.Pkts {
+			if p.Type == packets.Publish && !acked[p.ID] {
+				acked[p.ID] = true
+				_ = s.processPacket(cl2, packets.Packet{ProtocolVersion: 5, FixedHeader: packets.FixedHeader{Type: packets.Puback}, PacketID: p.ID})
+				vFlush(cl2)
+				progressed = true
+				break
+			}
+		}
+		if !progressed {
+			break
+		}
+	}
+	w := vParseWire(vConnWritten(cl2.Net.Conn), 5)
+	var order []byte
+	seenPay := map[byte]bool{}
+	for _, p := range w.Pkts {
+		if p.Type == packets.Publish && len(p.Payload) == 1 && !seenPay[p.Payload[0]] {
+			seenPay[p.Payload[0]] = true // first appearance on the new connection only
+			order = append(order, p.Payload[0])
+		}
+	}
+	for i := 0; i+1 < len(order); i++ {
+		vAssert("later-publish-does-not-overtake-held-messages", order[i] < order[i+1])
+	}
+	vReach("end")
+}
